@@ -729,7 +729,7 @@ VARIANTS: List[Variant] = [
 
 META = {
     "design_ref": "DESIGN.md section 3, C13",
-    "technique": "dimension typing (UTF-8 byte columns vs character offsets; tokenizer lines vs str.splitlines lines) + def-use checks of the API wrappers + exit-shape check of the candidate scans of match / fullmatch",
+    "technique": "dimension typing (UTF-8 byte columns vs character offsets; tokenizer lines vs str.splitlines lines) + def-use checks of the API wrappers + exit-shape check of the candidate scans of match / fullmatch; Match coordinates typed as span coordinates; newline-only line splitters",
     "level_text": ("Decides on the current source that no position computation mixes ast byte columns with character "
                    "offsets without conversion, that no splitlines-derived list or table is indexed by an ast line number, "
                    "and that findall/search/finditer/Match.string are the stated derivations. It does not decide the "
